@@ -377,7 +377,15 @@ func propVectorCodec(t *rapid.T, f inst.Field) {
 	if err != nil || !bytes.Equal(mb, want) {
 		t.Fatalf("%s: MarshalBinary(n=%d) err=%v differs from the reference encoding", name, n, err)
 	}
-	// a failing writer must surface as an error
+	// a faulty sink (permanent, transient, partial or short write at a drawn Write call) must surface as an error,
+	// n must be what the sink accepted, and a nil error means the sink holds a decodable copy (fault_test.go)
+	smode := rapid.SampledFrom(sinkModes).Draw(t, "sinkmode")
+	sk := rapid.IntRange(1, n+2).Draw(t, "sinkcall")
+	if checkWriteToFault(t, f, vec, vals, want, smode, sk, nil) {
+		cl = append(cl, "sink:"+smode)
+	} else {
+		cl = append(cl, "sink:fault_not_reached")
+	}
 	if cut := rapid.IntRange(0, len(want)-1).Draw(t, "wcut"); true {
 		if _, err := vec.WriteTo(&failingWriter{left: cut}); err == nil {
 			t.Fatalf("%s: WriteTo(n=%d) into a writer failing after %d bytes returned nil", name, n, cut)
